@@ -377,6 +377,7 @@ func uploadScen(c *Ctx) {
 	// the plan is drawn first, then executed by one client task
 	var ups []*Up
 	var pre [][]*world.Blob // splice parts to upload before
+	var sibling *Up
 	for i := 0; i < nUps; i++ {
 		path := r.Intn(wpCount)
 		var size int64
@@ -388,7 +389,7 @@ func uploadScen(c *Ctx) {
 		} else {
 			size = world.SizeClasses[r.Weighted(6, 2, 2, 3, 2, 2, 1, 1, 1, 1, 1)]
 		}
-		b := world.Make(world.BlobID{Kind: r.Intn(3), Seed: 1000 + i, Size: size})
+		b := world.Make(world.BlobID{Kind: r.Intn(4), Seed: 1000 + i, Size: size})
 		fault := UFNone
 		if !limits && r.Chance(1, 2) {
 			fault = 1 + r.Intn(ufCount-1)
@@ -396,6 +397,22 @@ func uploadScen(c *Ctx) {
 				fault = UFNone
 			}
 		}
+		// A damaged upload right after the intact upload of a sibling (same
+		// size, same bytes except 16 per 4 KiB): whatever the server keeps
+		// around from the previous request completes this one "correctly".
+		if sibling != nil && r.Chance(2, 3) {
+			path, size = sibling.Path, sibling.B.Size()
+			b = world.Make(world.BlobID{Kind: 3, Seed: 1000 + i, Size: size})
+			fault = []int{UFTrunc, UFAbort, UFZCut, UFSizePlus}[r.Intn(4)]
+			if !faultApplies(path, fault, size) {
+				fault = UFTrunc
+			}
+			if !faultApplies(path, fault, size) {
+				fault = UFNone
+			}
+			s.Probe("sibling_after_intact")
+		}
+		sibling = nil
 		var parts []*world.Blob
 		if path == WPSplice || path == WPSpliceNoDigest {
 			// b := concat(parts)
@@ -420,6 +437,9 @@ func uploadScen(c *Ctx) {
 		}
 		u := makeUp(r, path, fault, b, i)
 		u.Chunks = parts
+		if b.ID.Kind == 3 && fault == UFNone && !limits && path != WPSplice && path != WPSpliceNoDigest {
+			sibling = u
+		}
 		ups = append(ups, u)
 		pre = append(pre, parts)
 		c.Logf("%d: %s", i, u)
